@@ -165,7 +165,7 @@ def wiring(prog, chk):
                         got_sign[side] = (fc[0], "-" if then_neg and not else_neg else "+" if else_neg and not then_neg else "?")
     for side, ref in CLASS_REF.items():
         chk.ob(got_cls.get(side) == ref, "A15.text-class-wiring", side, gp.where(), f"anchor {side[3:]}: (outside, vertical) -> alignment class table matches the reference", f"anchor {side[3:]}: class table {got_cls.get(side)} differs from the reference {ref}")
-        chk.ob(got_sign.get(side) == SIGN_REF[side], "A15.text-offset-sign", side, gp.where(), f"anchor {side[3:]}: text-offset moves the text inward for shapes and outward when `outside` ({SIGN_REF[side][0]} {SIGN_REF[side][1]}= offset when outside)", f"anchor {side[3:]}: offset sign wiring is {got_sign.get(side)} (expected {SIGN_REF[side]})")
+        # the inward/outward sign of text-offset is decided by the A17 `text-anchor` site (independent of local names)
     # every alignment class has a style rule
     th = prog.maybe_body("svgdx::themes::append_text_styles")
     if th is None:
